@@ -195,6 +195,18 @@ pub fn plan_run(verif_seed: u64, run_index: u64, lim: &Limits) -> Plan {
         let v = derive_variant(&mut rng, &cases[b]);
         cases.push(v);
     }
+    // A caller's mistake as a fault of the history (8 % of the ordinary-size runs): one more input, derived from
+    // one of the others, that the library rejects by panicking - duplicate generators, a generator outside the
+    // box, a mask that is too short. The caller catches the failure and goes on; the later, valid calls of the
+    // same process are what is checked (state left behind by a call that unwound).
+    {
+        let mut ri = Rng::new(mix(verif_seed, run_index, 0x1BAD));
+        if !big && !medium && ri.chance(0.08) {
+            let b = ri.below(cases.len() as u64) as usize;
+            let v = vcore::case::derive_invalid(&mut ri, &cases[b]);
+            cases.push(v);
+        }
+    }
     let ncase = cases.len() as u64;
     let n_ops = if big {
         2
